@@ -491,30 +491,33 @@ func rateScenarios(tier string) []hx.Scenario {
 		b = 2
 	}
 	for _, co := range corners {
-		for _, withReset := range []bool{false, true} {
-			co, withReset := co, withReset
-			name := fmt.Sprintf("rate/rate=%d/burst=%d/reset=%v/B=%d", co.rate, co.burst, withReset, b)
+		refill := co.rate * 125 / 1000
+		size := int(co.burst + 4*refill + 17)
+		nw := size/(32*1024) + 2
+		if nw > 12 {
+			nw = 12
+		}
+		// without a reset: one scenario; with a reset: one scenario per number of writes after which it arrives
+		// (deviations then move it around that point), so that the sub-trees run on different cores
+		for k := -1; k < nw; k++ {
+			co, k := co, k
+			bound := b
+			if k < 0 {
+				bound = 0
+			} else if size > 8<<20 && bound > 1 {
+				bound = 1 // 64 MiB bodies: one deviation
+			}
+			name := fmt.Sprintf("rate/rate=%d/burst=%d/reset=false/B=%d", co.rate, co.burst, bound)
+			if k >= 0 {
+				name = fmt.Sprintf("rate/rate=%d/burst=%d/reset-after-writes=%d/B=%d", co.rate, co.burst, k, bound)
+			}
 			out = append(out, hx.Scenario{Name: name, Run: func(c *hx.Ctx) *hx.ScenarioResult {
-				refill := co.rate * 125 / 1000
-				size := int(co.burst + 4*refill + 17)
 				cc := copyCase{streaming: true, limit: -1, size: size, chunk: 1 << 20}
 				body := func() {
-					k := -1
-					if withReset {
-						nw := size/(32*1024) + 2
-						if nw > 12 {
-							nw = 12
-						}
-						k = sched.Choose(nw, "reset-after-writes")
-					}
 					inner := runCopy(cc, k)
 					// the bucket parameters of this corner (the parsing path sets them from headers; here directly)
 					sched.Cur().Values["corner"] = co
 					innerWithParams(inner, co.rate, co.burst)()
-				}
-				bound := b
-				if !withReset {
-					bound = 0
 				}
 				return hx.ExploreScenario(c, "C17", name, sched.Options{Bound: bound, MaxSteps: 300000, BoundAll: true, HorizonClause: "c"}, body, judgeCopy(cc, co.rate, co.burst))
 			}})
